@@ -844,7 +844,108 @@ func init() {
 		prev(c)
 		if p := c.Prog("amd64"); p != nil {
 			c.Clauses = append(c.Clauses, "C11.cachefirst: (*bls.PrivateKey).UnmarshalBinary resets the cached public key on every path, also on the refusing ones (the scalar is replaced before the key is validated)")
-			checkMustWrite(c, p, "C11.cachefirst", "sign/bls", "PrivateKey", "UnmarshalBinary", []string{".pub"}, "the decoder replaces the scalar before it can refuse")
+			checkResetBeforeWrite(c, p, "C11.cachefirst", "sign/bls", "PrivateKey", "UnmarshalBinary", "pub", "key")
 		}
 	}
+}
+
+// checkResetBeforeWrite: in a decoder, every instruction that may write field keyField of the receiver is
+// dominated by a store to the cache field (so no exit taken after the key was touched keeps the old cache; an
+// exit taken before the key is touched may keep it).
+func checkResetBeforeWrite(c *Ctx, p *Program, rule, pkg, typ, name, cacheField, keyField string) {
+	f := p.Func(pkg, typ, name)
+	what := fmt.Sprintf("(%s.%s).%s resets %s before anything writes %s", pkg, typ, name, cacheField, keyField)
+	if f == nil {
+		c.undecided(rule, what, "anchor does not resolve", "")
+		return
+	}
+	mod := p.Mod()
+	idx := map[ssa.Instruction]int{}
+	for _, b := range f.Blocks {
+		for i, in := range b.Instrs {
+			idx[in] = i
+		}
+	}
+	var resets, writes []ssa.Instruction
+	onField := func(v ssa.Value, field string) bool {
+		for i := 0; i < 16; i++ {
+			switch x := v.(type) {
+			case *ssa.FieldAddr:
+				if fieldName(x) == field {
+					if base, _ := memRoot(x.X); base == ssa.Value(f.Params[0]) {
+						return true
+					}
+				}
+				v = x.X
+			case *ssa.IndexAddr:
+				v = x.X
+			case *ssa.Slice:
+				v = x.X
+			default:
+				return false
+			}
+		}
+		return false
+	}
+	for _, b := range f.Blocks {
+		for _, in := range b.Instrs {
+			switch x := in.(type) {
+			case *ssa.Store:
+				if onField(x.Addr, cacheField) {
+					resets = append(resets, in)
+				}
+				if onField(x.Addr, keyField) {
+					writes = append(writes, in)
+				}
+			case ssa.CallInstruction:
+				c0 := x.Common()
+				var args []ssa.Value
+				if c0.IsInvoke() {
+					args = append(args, c0.Value)
+				}
+				args = append(args, c0.Args...)
+				written := map[int]bool{}
+				nm := p.staticCalleeName(c0)
+				for _, i := range externalWrites(nm, len(args)) {
+					written[i] = true
+				}
+				if cal := c0.StaticCallee(); cal != nil && cal.Blocks != nil {
+					for _, w := range mod.of(cal) {
+						var i int
+						if _, err := fmt.Sscanf(w.Root, "param#%d", &i); err == nil {
+							written[i] = true
+						}
+					}
+				} else if c0.IsInvoke() && strings.Contains(nm, "Unmarshal") {
+					written[0] = true // a decoder invoked through an interface writes its receiver
+				}
+				for i, a := range args {
+					if written[i] && onField(a, keyField) {
+						writes = append(writes, in)
+					}
+				}
+			}
+		}
+	}
+	if len(writes) == 0 {
+		c.undecided(rule, what, "no write of "+keyField+" found", p.fnPos(f))
+		return
+	}
+	var bad []string
+	for _, w := range writes {
+		ok := false
+		for _, r := range resets {
+			if r.Block() == w.Block() && idx[r] < idx[w] || r.Block() != w.Block() && r.Block().Dominates(w.Block()) {
+				ok = true
+			}
+		}
+		if !ok {
+			bad = append(bad, p.pos(w.Pos()))
+		}
+	}
+	if len(bad) > 0 {
+		c.bad(rule, what, "the write of "+keyField+" at "+strings.Join(bad, ", ")+" is not preceded by a reset of "+cacheField+": an exit taken after it (a refusal) leaves the cache of the previous key in place", p.fnPos(f))
+		return
+	}
+	c.ok(rule, what, fmt.Sprintf("%d write(s) of %s, each dominated by a reset of %s", len(writes), keyField, cacheField), p.fnPos(f))
 }
